@@ -58,6 +58,7 @@ def dispatch (line : String) : String :=
   | "c03cls" :: args => C03.handleCls args
   | "c04seq" :: args => C04.handle args
   | "c03big" :: args => C03.handleBig args
+  | "c04big" :: pred :: n :: _ => C03.handleBig [pred, n, "1", "pre"]
   | "c03sub" :: args => C03.handleSub args
   | "c03fn" :: args => C03.handleFnOk args
   | "c03fnx" :: args => C03.handleFn args
